@@ -352,14 +352,66 @@ def shiftRight (a : Int) (b : NumView) : Res Int :=
 /-- `KNumber::abs` on an integer: `i64::abs` overflows on `i64::MIN` -/
 def absInt (a : Int) : Res Int := ckI64 (if a < 0 then -a else a)
 
-/-- `StepToI64Iterator::new(start, target, step_by)` -/
-def stepToNew (start target step : Int) : Res (Int × Int × Int) :=
+/-- before commit d8d5b00 (finding F-C06-8): `StepToI64Iterator::new(start, target, step_by)` in
+unchecked `i64` arithmetic -/
+def stepToNewUnchecked (start target step : Int) : Res (Int × Int × Int) :=
   (ckI64 (target - start)).bind fun d =>
     (ckI64 (if d < 0 then -d else d)).bind fun ad =>
       (if step = 0 then Res.panic else ckI64 (Int.tdiv ad step)).bind fun steps =>
         (if target < start then ckI64 (-step) else .ok step).bind fun st =>
           (ckI64 (st * steps)).bind fun m =>
             (ckI64 (start + m)).bind fun tgt => .ok (tgt, st, steps)
+
+/-! ### `StepToI64Iterator` (core_lib/number/step_to.rs, current code): `i128` step count -/
+
+def I128_MIN : Int := -170141183460469231731687303715884105728
+def I128_MAX : Int := 170141183460469231731687303715884105727
+/-- debug-profile checked result of an `i128` operation -/
+def ckI128 (x : Int) : Res Int := if I128_MIN ≤ x ∧ x ≤ I128_MAX then .ok x else .panic
+
+def iabs (x : Int) : Int := if x < 0 then -x else x
+
+structure StepTo where
+  target : Int   -- i64
+  step : Int     -- i64
+  steps : Int    -- i128 (`steps_to_target`)
+  deriving Repr, DecidableEq
+
+/-- `StepToI64Iterator::new`: a step that is not positive gives the empty iterator (`steps = -1`);
+`step_by.wrapping_neg()` when descending; `(start + step_by * steps.max(0)) as i64` -/
+def stepToNew (start target step : Int) : Res StepTo :=
+  (if step > 0 then
+      (ckI128 (target - start)).bind fun d => (ckI128 (iabs d)).bind fun ad => ckI128 (Int.tdiv ad step)
+    else Res.ok (-1)).bind fun steps =>
+    let st := if target < start then wrap64 (-step) else step
+    (ckI128 (st * max steps 0)).bind fun m =>
+      (ckI128 (start + m)).bind fun t => .ok ⟨wrap64 t, st, steps⟩
+
+/-- `next`: `(target - step_by * steps) as i64`, `steps -= 1` -/
+def stepToNext (s : StepTo) : Res (Option Int × StepTo) :=
+  if s.steps ≥ 0 then
+    (ckI128 (s.step * s.steps)).bind fun m =>
+      (ckI128 (s.target - m)).bind fun v =>
+        (ckI128 (s.steps - 1)).bind fun n' => .ok (some (wrap64 v), { s with steps := n' })
+  else .ok (none, s)
+
+/-- `next_back`: yields `target`, `target = target.wrapping_sub(step_by)`, `steps -= 1` -/
+def stepToNextBack (s : StepTo) : Res (Option Int × StepTo) :=
+  if s.steps ≥ 0 then
+    (ckI128 (s.steps - 1)).bind fun n' =>
+      .ok (some s.target, { s with target := wrap64 (s.target - s.step), steps := n' })
+  else .ok (none, s)
+
+/-- `size_hint`: `usize::try_from(steps + 1).unwrap_or(usize::MAX)` -/
+def stepToSizeHint (s : StepTo) : Res Int :=
+  (ckI128 (s.steps + 1)).bind fun h => .ok (if 0 ≤ h ∧ h ≤ USIZE_MAX then h else USIZE_MAX)
+
+/-- a sequence of pulls (`true` = `next_back`); result: the yielded values in pull order -/
+def stepToRun (s : StepTo) : List Bool → Res (List Int)
+  | [] => .ok []
+  | b :: ops =>
+    (if b then stepToNextBack s else stepToNext s).bind fun r =>
+      (stepToRun r.2 ops).bind fun vs => .ok (match r.1 with | some x => x :: vs | none => vs)
 
 /-- `range.expanded`: `start - n`, `end + n` -/
 def rangeExpanded (s e n : Int) : Res (Int × Int) :=
@@ -383,6 +435,38 @@ def listGet (len : Int) (n : NumView) : Res (Option Int) :=
 
 /-- `list.resize`: guard `n < 0.0` → error; else `Vec::resize(n)` (allocation is outside C06) -/
 def listResize (n : NumView) : Res Int := if n.ltZeroF then .err else .ok n.usize
+
+/-! ### `list.retain` with a predicate (current code, commit cf950fc)
+
+The predicate may change the list, so the list length after each call is an *input* (`lens`); the
+loop bound is the length read once before the loop (`len0`). Each iteration: read through the
+non-panicking `get(read_index)` (stop when gone), call the predicate (`keep`, new length), write
+through `get_mut(write_index)` (skipped when the slot is gone); finally `truncate(write_index)`.
+Before the fix the read was `data()[read_index]` and the write `data_mut()[write_index]`. -/
+
+/-- one adversary move: the predicate's answer and the list length it leaves behind -/
+abbrev RetainMove := Bool × Int
+
+/-- state: read index, write index, current length -/
+def retainLoop (checked : Bool) (len0 : Int) : Int → Int → Int → List RetainMove → Res (Int × Int)
+  | r, w, len, [] => .ok (w, len)
+  | r, w, len, (keep, len') :: ms =>
+    if r < len0 then
+      -- read
+      (if r < len then Res.ok () else (if checked then Res.err else Res.panic)).bind fun _ =>
+        -- predicate ran: the list now has `len'` entries
+        if keep then
+          (if w < len' then Res.ok (w + 1) else (if checked then Res.ok w else Res.panic)).bind fun w' =>
+            retainLoop checked len0 (r + 1) w' len' ms
+        else retainLoop checked len0 (r + 1) w len' ms
+    else .ok (w, len)
+
+/-- the loop, then `truncate(write_index)` (never panics; `err` encodes the early `break`) -/
+def listRetain (checked : Bool) (len0 : Int) (ms : List RetainMove) : Res Int :=
+  match retainLoop checked len0 0 0 len0 ms with
+  | .panic => .panic
+  | .err => .err
+  | .ok (w, len) => .ok (min w len)
 
 /-! ## string iterators (core_lib/string/iterators.rs): `next` and `size_hint` -/
 
